@@ -272,6 +272,9 @@ def main(argv):
         kh = []
         if cfg.get('kani'):
             kh = list(cfg['kani'].get(tier) or cfg['kani'].get('quick', []))
+        if tier != 'thorough':
+            for pv in pending:
+                pv['mirrors'] = [m for m in pv['mirrors'] if m not in P.HEAVY_HARNESSES]
         mirror_needed = sorted(set(m for pv in pending for m in pv['mirrors']))
         kres_by = {}
         if (kh and not undecided) or mirror_needed:
@@ -291,34 +294,31 @@ def main(argv):
                 pv['witness'] = m0.get('witness')
                 pv['message'] += ' || Kani mirror %s FAILED: %s' % (m0['name'], '; '.join(m0.get('failed', []))[:300])
                 violations.append(pv)
-            elif ms and all(m['status'] == 'SUCCESSFUL' for m in ms):
-                undecided.append('proof limit: Verus failed `%s` in %s but its Kani mirror(s) %s hold -> not reported as a violation'
-                                 % (pv['label'][:120], pv['fn'], [m['name'] for m in ms]))
-            elif ms:
-                undecided.append('Verus failed `%s` in %s and its Kani mirror(s) were inconclusive: %s'
-                                 % (pv['label'][:120], pv['fn'], [(m['name'], m['status']) for m in ms]))
-            elif not ms and nx.witnesses_for(pv['unit'], pv['fn'], pv['label']):
-                ws = nx.witnesses_for(pv['unit'], pv['fn'], pv['label'])
-                try:
-                    nres = nx.run([w['test'] for w in ws])
-                except Exception as e:  # a broken witness build must not mask the verifier's verdict
-                    nres = {}
-                    pv['message'] += ' || native witness could not be run: %s' % str(e)[:200]
-                hit = [(n, r) for n, r in nres.items() if r[0]]
+            else:
+                conclusive_ok = bool(ms) and all(m['status'] == 'SUCCESSFUL' for m in ms)
+                ws = nx.witnesses_for(pv['unit'], pv['fn'], pv['label']) if not conclusive_ok else []
+                hit = []
+                if ws:
+                    try:
+                        nres = nx.run([w['test'] for w in ws])
+                    except Exception as e:  # a broken witness build must not mask the verifier's verdict
+                        nres = {}
+                        pv['message'] += ' || native witness could not be run: %s' % str(e)[:200]
+                    hit = [(n, r) for n, r in nres.items() if r[0]]
                 if hit:
                     pv['witness'] = {'native_test': hit[0][0], 'log': hit[0][1][2], 'cmd': hit[0][1][3], 'test': None}
                     pv['message'] += ' || native witness test %s FAILS on the real code' % hit[0][0]
                     violations.append(pv)
+                elif conclusive_ok:
+                    undecided.append('proof limit: Verus failed `%s` in %s but its Kani mirror(s) %s hold -> not reported as a violation'
+                                     % (pv['label'][:120], pv['fn'], [m['name'] for m in ms]))
                 elif pv['ghost_lost']:
-                    undecided.append('Verus failed `%s` in %s after proof-hint anchors were lost (%s); native witness does not reproduce -> undecided'
+                    undecided.append('Verus failed `%s` in %s after proof-hint anchors were lost (%s); no conclusive mirror or witness -> undecided'
                                      % (pv['label'][:120], pv['fn'], pv['ghost_lost']))
                 else:
+                    if ms:
+                        pv['message'] += ' || Kani mirror(s) inconclusive: %s' % [(m['name'], m['status']) for m in ms]
                     violations.append(pv)
-            elif pv['ghost_lost']:
-                undecided.append('Verus failed `%s` in %s after proof-hint anchors were lost (%s); no Kani mirror -> undecided'
-                                 % (pv['label'][:120], pv['fn'], pv['ghost_lost']))
-            else:
-                violations.append(pv)
         # (2) the property's own harnesses
         for hn in (kh if not undecided else []):
             h = kres_by.get(hn)
